@@ -9,6 +9,12 @@ pub fn verif_root() -> PathBuf {
     std::env::var_os("VERIF_ROOT").map_or_else(|| PathBuf::from("/verif"), PathBuf::from)
 }
 
+/// Where evidence and replay files go (normally the verif root; redirected when trying seeded
+/// changes so that committed evidence is only ever written by runs on the real tree).
+pub fn out_root() -> PathBuf {
+    std::env::var_os("VERIF_OUT_DIR").map_or_else(verif_root, PathBuf::from)
+}
+
 pub fn shim_path() -> PathBuf {
     std::env::var_os("VERIF_SHIM").map_or_else(|| verif_root().join("build/libverifshim.so"), PathBuf::from)
 }
